@@ -26,7 +26,7 @@ p = '/verif/DESIGN.md'
 s = open(p).read()
 a = re.search(r'\d+ seeded changes \(', s).start()
 b = s.index('The undecided ones')
-s = s[:a] + '%d seeded changes (five rounds of independent sub-agents): **%d detected** (exit 1 with a named obligation), %d undecided (exit 2, never an alarm), %d missed.\n\n%s\n\n' % (n, nd, nu, nm, tab) + s[b:]
+s = s[:a] + '%d seeded changes (six rounds of independent sub-agents): **%d detected** (exit 1 with a named obligation), %d undecided (exit 2, never an alarm), %d missed.\n\n%s\n\n' % (n, nd, nu, nm, tab) + s[b:]
 open(p, 'w').write(s)
 print(n, nd, nu, nm)
 for r in rows:
